@@ -168,6 +168,11 @@ func (table *Table) Encode() []byte {
 		}
 	}
 
+	if glyphClassDefOffset > 0xFFFF || markAttachClassDefOffset > 0xFFFF || markGlyphSetsDefOffset > 0xFFFF {
+		// the header uses 16-bit offsets
+		panic("GDEF table too large")
+	}
+
 	buf := make([]byte, 12, total)
 	// We always write table version 1.0:
 	buf[0] = byte(version >> 24)
